@@ -56,16 +56,17 @@ ANCHORS = [
     "gemseo.algos.pareto.utils:compute_pareto_optimal_points",
 ]
 MIN_COUNTERS = {
-    "quick": {"patterns_enumerated": 24000, "optimum_judged": 50000, "result_judged": 50000,
-              "branch_feasible": 20000, "branch_infeasible": 15000, "selection_nontrivial": 15000,
-              "infeasible_partial_histories": 8000, "feasibility_checks_full_points": 50000,
-              "random_histories": 25000, "pareto_fronts_judged": 2000, "live_store_events_judged": 150,
-              "maximize_cases": 20000, "original_objective_sign_restored": 5000},
-    "thorough": {"patterns_enumerated": 746496, "optimum_judged": 1000000, "result_judged": 1000000,
-                 "branch_feasible": 400000, "branch_infeasible": 300000, "selection_nontrivial": 300000,
-                 "infeasible_partial_histories": 150000, "feasibility_checks_full_points": 1000000,
-                 "random_histories": 400000, "pareto_fronts_judged": 30000, "live_store_events_judged": 1500,
-                 "maximize_cases": 400000, "original_objective_sign_restored": 100000},
+    "quick": {"patterns_enumerated": 40000, "optimum_judged": 70000, "result_judged": 60000,
+              "branch_feasible": 30000, "branch_infeasible": 35000, "selection_nontrivial": 45000,
+              "infeasible_partial_histories": 18000, "feasible_without_usable_objective": 9000,
+              "feasibility_checks_full_points": 200000, "random_histories": 48000, "pareto_fronts_judged": 1800,
+              "live_store_events_judged": 900, "maximize_cases": 35000, "original_objective_sign_restored": 13000},
+    # thorough claims the complete pattern space: every one of the 746 496 patterns must have been judged
+    "thorough": {"patterns_enumerated": 746496, "optimum_judged": 850000, "result_judged": 700000,
+                 "branch_feasible": 350000, "branch_infeasible": 400000, "selection_nontrivial": 500000,
+                 "infeasible_partial_histories": 200000, "feasible_without_usable_objective": 100000,
+                 "feasibility_checks_full_points": 2000000, "random_histories": 480000, "pareto_fronts_judged": 18000,
+                 "live_store_events_judged": 5000, "maximize_cases": 400000, "original_objective_sign_restored": 150000},
 }
 SHARD_TIMEOUT = {"quick": 900, "thorough": 6000}  # caps only; nominal wall is ~30 s / ~4 min
 
